@@ -513,6 +513,551 @@ func (w *world) buildLong(t *tr.W) {
 	w.judge()
 }
 
+// ------------------------------------------------ near-tie reorganisations
+//
+// A chain on which the blocks do NOT all carry the same work (a retarget that really changes the
+// bits; the 20-minute minimum-difficulty rule), and, for several fork points below its tip,
+// competing branches whose total work is placed on purpose right next to the work W of the suffix
+// they would displace: the heaviest branch found below W, one of exactly W, the lightest one found
+// above W.  Whoever sums the displaced work over anything else than the heights fork+1 .. tip - one
+// block too many, one too few, a window shifted by one - gets a number that differs from W by at
+// least the difference of two neighbouring blocks' work, and decides one of these offers wrongly.
+
+// pnode is a PLANNED header: height, bits and timestamp are all the difficulty rules look at, so a
+// branch can be weighed before a single hash is computed.  Only the branches picked are mined.
+type pnode struct {
+	parent blockchain.HeaderCtx
+	height int32
+	bits   uint32
+	ts     int64
+}
+
+func (p *pnode) Height() int32                { return p.height }
+func (p *pnode) Bits() uint32                 { return p.bits }
+func (p *pnode) Timestamp() int64             { return p.ts }
+func (p *pnode) Parent() blockchain.HeaderCtx { return p.parent }
+func (p *pnode) RelativeAncestorCtx(d int32) blockchain.HeaderCtx {
+	var c blockchain.HeaderCtx = p
+	for i := int32(0); i < d; i++ {
+		if c = c.Parent(); c == nil {
+			return nil
+		}
+	}
+	return c
+}
+
+func work64(bits uint32) int64 {
+	w := blockchain.CalcWork(bits)
+	if !w.IsInt64() {
+		panic("generator: work does not fit 63 bits")
+	}
+	return w.Int64()
+}
+
+// ntCand: one competing branch of a near-tie round.
+type ntCand struct {
+	fp    *node   // fork point (stored; the branch's first header names it)
+	kind  string  // below tie above
+	ts    []int64 // the plan
+	total int64   // work of the whole branch
+	disp  int64   // W: work of the suffix it would displace
+	nodes []*node // the mined branch
+}
+
+// ntRound: the offers made against one stored chain; `adopt` (if any) is sent last and becomes
+// the stored chain of the next round.
+type ntRound struct {
+	chain []*node
+	offer []*ntCand
+	adopt *ntCand
+	split int // > 0: `adopt` is revealed in two messages, the first being its first `split` headers
+}
+
+// ntPickTs chooses the timestamp of the next planned header.  need = what the branch still lacks
+// to reach the displaced work.
+func (w *world) ntPickTs(cur blockchain.HeaderCtx, need int64) int64 {
+	rng := w.rng
+	base := cur.Timestamp()
+	per := w.cc.per
+	var ts int64
+	switch r := rng.Intn(12); {
+	case r < 3:
+		ts = base + 600
+	case r < 5:
+		ts = base + 20 + int64(rng.Intn(100))
+	case r < 6:
+		ts = base + 700 + int64(rng.Intn(480))
+	case r < 10 && w.params.ReduceMinDifficulty:
+		ts = base + 1201 + int64(rng.Intn(700)) // a minimum-difficulty block
+	default:
+		ts = base + 200 + int64(rng.Intn(400))
+	}
+	// the header being planned is the last one of its retarget interval: its timestamp decides the
+	// bits of the next interval.  Aim them so that k such blocks bring the branch next to W.
+	if !w.params.PoWNoRetargeting && (cur.Height()+2)%per == 0 && rng.Intn(3) > 0 {
+		if first := cur.RelativeAncestorCtx(per - 2); first != nil {
+			own := w.requiredBitsCtx(cur, time.Unix(base+1, 0))
+			k := int64(1 + rng.Intn(3))
+			want := (need - work64(own) + int64(rng.Intn(4)-1)) / k
+			if want >= 2 {
+				// target' = 2^256/want - 1;  actual = target' * timespan / target(own)
+				tgt := new(big.Int).Lsh(big.NewInt(1), 256)
+				tgt.Div(tgt, big.NewInt(want))
+				tgt.Sub(tgt, big.NewInt(1))
+				a := new(big.Int).Mul(tgt, big.NewInt(int64(w.params.TargetTimespan/time.Second)))
+				a.Div(a, blockchain.CompactToBig(own))
+				if a.IsInt64() {
+					actual := a.Int64() + int64(rng.Intn(2))
+					if actual >= w.cc.min && actual <= w.cc.max {
+						ts = first.Timestamp() + actual
+					}
+				}
+			}
+		}
+	}
+	if m := blockchain.CalcPastMedianTime(cur).Unix(); ts <= m {
+		ts = m + 1
+	}
+	return ts
+}
+
+// ntSearch plans branches off fp by random walks and keeps, of every prefix of every walk, the
+// heaviest one below W, one of exactly W and the lightest one above W.
+func (w *world) ntSearch(fp *node, W int64, maxLen int) (below, tie, above *ntCand) {
+	keep := func(kind string, tss []int64, total int64) *ntCand {
+		return &ntCand{fp: fp, kind: kind, ts: append([]int64{}, tss...), total: total, disp: W}
+	}
+	for walk := 0; walk < 160; walk++ {
+		var cur blockchain.HeaderCtx = hctx{fp}
+		cum := int64(0)
+		var tss []int64
+		for d := 0; d < maxLen && cum <= W; d++ {
+			ts := w.ntPickTs(cur, W-cum)
+			bits := w.requiredBitsCtx(cur, time.Unix(ts, 0))
+			cum += work64(bits)
+			tss = append(tss, ts)
+			cur = &pnode{parent: cur, height: cur.Height() + 1, bits: bits, ts: ts}
+			switch {
+			case cum < W && (below == nil || cum > below.total || cum == below.total && w.rng.Intn(3) == 0):
+				below = keep("below", tss, cum)
+			case cum == W && (tie == nil || w.rng.Intn(3) == 0):
+				tie = keep("tie", tss, cum)
+			case cum > W && (above == nil || cum < above.total || cum == above.total && w.rng.Intn(3) == 0):
+				above = keep("above", tss, cum)
+			}
+		}
+	}
+	return
+}
+
+func (w *world) ntMine(c *ntCand) {
+	cur := c.fp
+	sum := int64(0)
+	for _, ts := range c.ts {
+		cur = w.mine(cur, ts, "ok")
+		c.nodes = append(c.nodes, cur)
+		sum += cur.work.Int64()
+	}
+	if sum != c.total {
+		panic(fmt.Sprintf("generator: planned work %d, mined work %d", c.total, sum))
+	}
+}
+
+// buildNearTie: the main chain with its difficulty on the move, then `rounds` rounds of offers.
+func (w *world) buildNearTie(t *tr.W) []*ntRound {
+	rng := w.rng
+	per := int(w.cc.per)
+	minDiff := w.params.ReduceMinDifficulty
+	// the tip usually lies 0..2 blocks past a retarget height
+	L := per*(1+rng.Intn(2)) + rng.Intn(3)
+	if per == 4 {
+		L += 4
+	}
+	if rng.Intn(3) == 0 {
+		L = 2*per + 1 + rng.Intn(per)
+	}
+	cur := w.nodes[0]
+	w.main = []*node{cur}
+	tempo := rng.Intn(2) // the first interval is fast: the difficulty leaves the limit
+	for h := 1; h <= L; h++ {
+		if h%per == 0 {
+			tempo = []int{0, 1, 2, 2, 2, 3}[rng.Intn(6)] // later on it falls as often as it rises
+		}
+		var sp int64
+		switch tempo {
+		case 0:
+			sp = int64(20 + rng.Intn(100)) // four times harder
+		case 1:
+			sp = int64(200 + rng.Intn(330)) // harder by some odd factor
+		case 2:
+			sp = int64(700 + rng.Intn(490)) // easier
+		default:
+			sp = 600
+		}
+		if minDiff && h%per != 0 && (rng.Intn(4) == 0 || h == L && rng.Intn(2) == 0) {
+			sp = int64(1201 + rng.Intn(900)) // a minimum-difficulty block between normal ones
+		}
+		cur = w.mine(cur, cur.hdr.Timestamp.Unix()+sp, "ok")
+		w.main = append(w.main, cur)
+	}
+	if rng.Intn(3) == 0 { // a checkpoint well below every fork point
+		h := 1 + rng.Intn(max(1, L-7))
+		w.params.Checkpoints = []chaincfg.Checkpoint{{Height: int32(h), Hash: &w.main[h].hash}}
+	}
+	t.Hit(fmt.Sprintf("checkpoints.%d", len(w.params.Checkpoints)))
+	floor := 0
+	for _, c := range w.params.Checkpoints {
+		floor = int(c.Height)
+	}
+
+	var rounds []*ntRound
+	chain := w.main
+	for r, nr := 0, 3+rng.Intn(2); r < nr; r++ {
+		rd := &ntRound{chain: chain}
+		rounds = append(rounds, rd)
+		tipH := len(chain) - 1
+		tipW := chain[tipH].work.Int64()
+		// fork points: up to 6 below the tip; those whose block differs in work from the tip first
+		var diff, same []int
+		for f := tipH - 1; f >= max(floor, tipH-6, 0); f-- {
+			if chain[f].work.Int64() != tipW {
+				diff = append(diff, f)
+			} else {
+				same = append(same, f)
+			}
+		}
+		rng.Shuffle(len(diff), func(i, j int) { diff[i], diff[j] = diff[j], diff[i] })
+		rng.Shuffle(len(same), func(i, j int) { same[i], same[j] = same[j], same[i] })
+		fps := append(diff[:min(len(diff), 5)], same[:min(len(same), 1)]...)
+		var aboves []*ntCand
+		for i, f := range fps {
+			W := int64(0)
+			for _, n := range chain[f+1:] {
+				W += n.work.Int64()
+			}
+			below, tie, above := w.ntSearch(chain[f], W, min(tipH-f+3, 8))
+			// the not-heavier offers of two fork points whose block differs from the tip, and of one
+			// whose block does not; the heavier offer is looked for at every one of them
+			if i < 2 || i == len(fps)-1 {
+				for _, c := range []*ntCand{below, tie} {
+					if c != nil {
+						rd.offer = append(rd.offer, c)
+					}
+				}
+			}
+			if above != nil {
+				aboves = append(aboves, above)
+			}
+		}
+		if len(aboves) > 0 {
+			// the branch to be adopted: the one closest to what it displaces, relative to the
+			// difference between its fork block and the tip
+			sort.SliceStable(aboves, func(i, j int) bool {
+				return w.ntSlack(chain, aboves[i]) < w.ntSlack(chain, aboves[j])
+			})
+			rd.adopt = aboves[0]
+			if rng.Intn(4) == 0 {
+				rd.adopt = aboves[rng.Intn(len(aboves))]
+			}
+			if n := len(rd.adopt.ts); n > 1 && rng.Intn(2) == 0 {
+				rd.split = 1 + rng.Intn(n-1)
+			}
+		}
+		rng.Shuffle(len(rd.offer), func(i, j int) { rd.offer[i], rd.offer[j] = rd.offer[j], rd.offer[i] })
+		for _, c := range rd.offer {
+			w.ntMine(c)
+		}
+		if rd.adopt == nil {
+			break
+		}
+		w.ntMine(rd.adopt)
+		chain = append(append([]*node{}, chain[:rd.adopt.fp.height+1]...), rd.adopt.nodes...)
+	}
+	var maxTs int64
+	for _, n := range w.nodes {
+		maxTs = max(maxTs, n.hdr.Timestamp.Unix())
+	}
+	w.ts.now = time.Unix(maxTs+3600, 0)
+	t.Hit("time.all-fresh")
+	w.judge()
+	for _, rd := range rounds {
+		for _, c := range append(append([]*ntCand{}, rd.offer...), rd.adopt) {
+			if c != nil {
+				w.ntCount(t, rd.chain, c)
+			}
+		}
+	}
+	return rounds
+}
+
+// ntSlack: how far above W the branch lies, in units that put the decisive ones first (0 = lies
+// between W and the sum over the window shifted down by one block, the fork block being heavier
+// than the tip).
+func (w *world) ntSlack(chain []*node, c *ntCand) int64 {
+	d := chain[c.fp.height].work.Int64() - chain[len(chain)-1].work.Int64()
+	if d > 0 && c.total-c.disp <= d {
+		return 0
+	}
+	return c.total - c.disp
+}
+
+// ntCount records what kind of near tie an offer is (input distribution for the evidence).
+func (w *world) ntCount(t *tr.W, chain []*node, c *ntCand) {
+	f := int(c.fp.height)
+	tipH := len(chain) - 1
+	wf, wt := chain[f].work.Int64(), chain[tipH].work.Int64()
+	delta := c.total - c.disp
+	if delta < 0 {
+		delta = -delta
+	}
+	t.Hit("neartie.offer." + c.kind)
+	switch {
+	case wf > wt:
+		t.Hit("neartie.fork-block-heavier-than-tip")
+	case wf < wt:
+		t.Hit("neartie.tip-heavier-than-fork-block")
+	default:
+		t.Hit("neartie.fork-block-same-work-as-tip")
+	}
+	if d := max(wf-wt, wt-wf); delta < d {
+		t.Hit("neartie.offer." + c.kind + ".closer-than-fork-tip-difference")
+	}
+	light := wf
+	for _, n := range chain[f+1:] {
+		light = min(light, n.work.Int64())
+	}
+	for _, n := range c.nodes {
+		light = min(light, n.work.Int64())
+	}
+	if delta < light {
+		t.Hit("neartie.offer." + c.kind + ".closer-than-lightest-block")
+	}
+	if len(c.nodes) != tipH-f {
+		t.Hit("neartie.offer.length-differs-from-displaced")
+	}
+	// the offer lies between the displaced work and the sum over the window shifted by one block
+	// (heights fork .. tip-1): the two sums decide it differently
+	shifted := c.disp + wf - wt
+	switch {
+	case c.total > c.disp && c.total <= shifted:
+		t.Hit("neartie.between-sums.heavier-than-displaced")
+	case c.total <= c.disp && c.total > shifted:
+		t.Hit("neartie.between-sums.not-heavier-than-displaced")
+	}
+	// what makes the work vary over fork block, displaced suffix and branch
+	lim := w.params.PowLimitBits
+	md, rt := false, false
+	seg := append(append([]*node{}, chain[f:]...), c.nodes...)
+	for _, n := range seg {
+		if n.parent == nil {
+			continue
+		}
+		if n.height%w.cc.per == 0 && n.hdr.Bits != n.parent.hdr.Bits {
+			rt = true
+		}
+		if n.height%w.cc.per != 0 && n.hdr.Bits == lim && w.params.ReduceMinDifficulty &&
+			n.hdr.Timestamp.Unix() > n.parent.hdr.Timestamp.Unix()+1200 {
+			for _, o := range seg {
+				md = md || o.hdr.Bits != lim
+			}
+		}
+	}
+	if rt {
+		t.Hit("neartie.varies-by.retarget")
+	}
+	if md {
+		t.Hit("neartie.varies-by.min-difficulty-rule")
+	}
+}
+
+// ------------------------------------------ context after a reorganisation
+//
+// "re-anchor -> validate with the store fall-back -> reorganise -> re-anchor -> a header whose
+// validity depends on the ancestors at the reorganised heights".  While the in-memory list holds
+// only the tip, the context handed to btcd (median-time-past, retarget look-back, min-difficulty
+// walk) reads every ancestor below the tip from the STORE; after a reorganisation the store holds
+// other headers at those heights.  A validator that resolves an ancestor through anything that
+// still remembers the abandoned branch judges such a header in a context that is not its own.
+
+// staleCtx is node n seen by a validator that still resolves the heights lo < h <= hi through the
+// abandoned chain `old` (n itself excepted); everything else is n's own branch.  Used only to
+// CHOOSE timestamps / bits that tell the two contexts apart; the table records btcd's verdict on
+// the header's own branch.
+type staleCtx struct {
+	n      *node
+	old    []*node
+	lo, hi int32
+}
+
+func (c staleCtx) Height() int32                { return c.n.height }
+func (c staleCtx) Bits() uint32                 { return c.n.hdr.Bits }
+func (c staleCtx) Timestamp() int64             { return c.n.hdr.Timestamp.Unix() }
+func (c staleCtx) Parent() blockchain.HeaderCtx { return c.RelativeAncestorCtx(1) }
+func (c staleCtx) RelativeAncestorCtx(d int32) blockchain.HeaderCtx {
+	if d == 0 {
+		return c
+	}
+	h := c.n.height - d
+	if h < 0 {
+		return nil
+	}
+	if h > c.lo && h <= c.hi && int(h) < len(c.old) {
+		return staleCtx{c.old[h], c.old, c.lo, c.hi}
+	}
+	a := c.n
+	for a != nil && a.height > h {
+		a = a.parent
+	}
+	if a == nil {
+		return nil
+	}
+	return staleCtx{a, c.old, c.lo, c.hi}
+}
+
+// stCand: a context-sensitive header offered on top of (a node of) the adopted branch.
+type stCand struct {
+	n     *node
+	tail  *node  // a plain valid child of n (sent along when n is offered as a fork)
+	sense string // what it tells apart (evidence only)
+	tells bool   // its verdict differs between its own context and the stale one
+}
+
+type stScript struct {
+	T      int        // the main chain is synced up to this height first
+	ext    *node      // main[T+1]: validated through the store fall-back before the reorganisation (may be nil)
+	vBad   *node      // a child of main[T] at or below its median-time-past (must be refused)
+	branch []*node    // the competing branch, forking at main[f]
+	f      int        // fork height
+	levels [][]stCand // [0]: children of the branch tip; [i+1]: children of the valid candidate of level i
+	forkC  []stCand   // children of the branch tip's parent (offered as two-header forks)
+}
+
+// stCands makes the context-sensitive children of P, which sits on a branch that displaced
+// old[f+1 ..].
+func (w *world) stCands(t *tr.W, P *node, old []*node, f int) []stCand {
+	rng := w.rng
+	sc := staleCtx{P, old, int32(f), int32(len(old) - 1)}
+	mo := w.mtp(P)
+	ms := blockchain.CalcPastMedianTime(sc).Unix()
+	var out []stCand
+	add := func(ts int64, kind, sense string, bits uint32) {
+		n := w.mineBits(P, ts, kind, bits)
+		// (the child of an invalid header abides by the rules itself)
+		c := stCand{n: n, tail: w.mine(n, w.nextTs(n, 0), "ok"), sense: sense, tells: strings.Contains(sense, "if-stale")}
+		out = append(out, c)
+		t.Hit("restale.cand." + sense)
+	}
+	pick := func(lo, hi int64, nearHi bool) int64 { // a timestamp in [lo, hi], mostly the end next to the own median
+		if lo >= hi || rng.Intn(3) > 0 {
+			if nearHi {
+				return hi
+			}
+			return lo
+		}
+		return lo + rng.Int63n(hi-lo+1)
+	}
+	switch {
+	case ms < mo:
+		// the abandoned chain's timestamps lie behind: a header at or below its own median-time-past
+		// passes in the stale context
+		add(mo, "stale", "invalid-own.valid-if-stale.mtp", 0)
+		add(pick(ms+1, mo, true), "stale", "invalid-own.valid-if-stale.mtp", 0)
+		add(mo+1, "ok", "valid-own.first-second-after-mtp", 0)
+	case ms > mo:
+		// the abandoned chain's timestamps lie ahead: a valid header right after its own
+		// median-time-past is "too old" in the stale context
+		add(pick(mo+1, ms, false), "ok", "valid-own.invalid-if-stale.mtp", 0)
+		add(mo-int64(rng.Intn(2)), "stale", "invalid-own.at-mtp", 0)
+	default:
+		t.Hit("restale.cand.mtp-same-in-both-contexts")
+		add(mo+1, "ok", "valid-own.first-second-after-mtp", 0)
+		add(mo, "stale", "invalid-own.at-mtp", 0)
+	}
+	// the difficulty the stale context would require (retarget look-back / min-difficulty walk through
+	// the abandoned chain)
+	ts := P.hdr.Timestamp.Unix() + 600
+	if ts <= mo {
+		ts = mo + 1
+	}
+	if ob, sb := w.requiredBits(P, time.Unix(ts, 0)), w.requiredBitsCtx(sc, time.Unix(ts, 0)); ob != sb && ts > ms {
+		add(ts, "ok", "valid-own.invalid-if-stale.bits", 0)
+		add(ts, "stale", "invalid-own.valid-if-stale.bits", sb)
+	}
+	return out
+}
+
+func (w *world) buildStale(t *tr.W) *stScript {
+	rng := w.rng
+	sc := &stScript{}
+	gen := w.nodes[0]
+	sc.T = 12 + rng.Intn(6)
+	style := []int{0, 0, 3}[rng.Intn(3)]
+	w.main = append([]*node{gen}, w.extend(gen, sc.T, style)...)
+	tipM := w.main[sc.T]
+	if rng.Intn(6) > 0 {
+		ts := w.nextTs(tipM, style)
+		if rng.Intn(3) == 0 {
+			ts = w.mtp(tipM) + 1 // the first second a child may carry
+		}
+		sc.ext = w.mine(tipM, ts, "ok")
+		w.main = append(w.main, sc.ext)
+	}
+	sc.vBad = w.mine(tipM, w.mtp(tipM)-int64(rng.Intn(2)), "mtp")
+	// the competing branch: its timestamps run ahead of the main chain's or lag behind them
+	sc.f = sc.T - 2 - rng.Intn(8)
+	late := rng.Intn(5) < 3
+	if late {
+		t.Hit("restale.branch.timestamps-ahead")
+	} else {
+		t.Hit("restale.branch.timestamps-behind")
+	}
+	disp := new(big.Int)
+	for _, n := range w.main[sc.f+1:] {
+		disp.Add(disp, n.work)
+	}
+	cur := w.main[sc.f]
+	bw := new(big.Int)
+	for k := 0; k < 40 && (bw.Cmp(disp) <= 0 || k < len(w.main)-sc.f+rng.Intn(2)); k++ {
+		var ts int64
+		if late {
+			ts = cur.hdr.Timestamp.Unix() + int64(1500+rng.Intn(1000))
+			if w.params.ReduceMinDifficulty && rng.Intn(2) == 0 {
+				ts = cur.hdr.Timestamp.Unix() + int64(900+rng.Intn(290)) // stay below the 20-minute rule
+			}
+		} else {
+			ts = w.mtp(cur) + 1 + int64(rng.Intn(20))
+		}
+		cur = w.mine(cur, ts, "ok")
+		sc.branch = append(sc.branch, cur)
+		bw.Add(bw, cur.work)
+	}
+	old := w.main
+	tipB := cur
+	if len(sc.branch) >= 2 {
+		sc.forkC = w.stCands(t, tipB.parent, old, sc.f)
+	}
+	for P, lv := tipB, 0; P != nil && lv < 3; lv++ {
+		cs := w.stCands(t, P, old, sc.f)
+		sc.levels = append(sc.levels, cs)
+		P = nil
+		for _, c := range cs {
+			if c.n.kind == "ok" {
+				P = c.n
+				break
+			}
+		}
+	}
+	var maxTs int64
+	for _, n := range w.nodes {
+		maxTs = max(maxTs, n.hdr.Timestamp.Unix())
+	}
+	w.ts.now = time.Unix(maxTs+3600, 0)
+	t.Hit("checkpoints.0")
+	t.Hit("time.all-fresh")
+	w.judge()
+	return sc
+}
+
 func allOk(n *node) bool {
 	for ; n != nil; n = n.parent {
 		if n.kind != "ok" {
@@ -1044,14 +1589,30 @@ func runCase(t *tr.W, rng *rand.Rand, nev int, script string) {
 	if script == "long" {
 		ps = len(paramSets) - 1
 	}
+	if script == "neartie" {
+		ps = []int{1, 2, 2, 3, 5, 5}[rng.Intn(6)] // a retarget every 4 or 8 blocks, with and without the min-difficulty rule
+	}
+	if script == "restale" {
+		ps = []int{0, 4, 4, 1, 2, 3, 5}[rng.Intn(7)]
+	}
 	w := newWorld(rng, ps)
-	if script == "long" {
+	var nearTie []*ntRound
+	var stale *stScript
+	switch script {
+	case "restale":
+		stale = w.buildStale(t)
+	case "long":
 		w.buildLong(t)
-	} else {
+	case "neartie":
+		nearTie = w.buildNearTie(t)
+	default:
 		w.build(t)
 	}
 	t.Hit(fmt.Sprintf("params.%d", ps))
 	npeers := 3
+	if script == "restale" {
+		npeers = 12 // every lost sync peer is replaced by a new one
+	}
 	s, err := newSys(w, npeers, rng)
 	if err != nil {
 		panic(err)
@@ -1263,6 +1824,242 @@ func runCase(t *tr.W, rng *rand.Rand, nev int, script string) {
 		cfwrite()
 		backlog()
 		headers(2, w.long[len(w.long)-3:], "known")
+		return
+	}
+	if script == "restale" {
+		t.Hit("script.restale")
+		nextPeer := 1
+		syncNew := func() { // a new peer that becomes the sync peer if there is none
+			if nextPeer > npeers {
+				return
+			}
+			peerheight(nextPeer, len(s.stored)-1+rng.Intn(3))
+			newpeer(nextPeer)
+			nextPeer++
+		}
+		sender := func() int {
+			if sp := s.peerID(s.bm.Digest().SyncPeer); sp != 0 {
+				return sp
+			}
+			return 1 + rng.Intn(npeers)
+		}
+		// reanchor: an event after which the in-memory list holds the stored tip only
+		raKinds := []string{"donepeer", "reset", "failwrite"}
+		rng.Shuffle(3, func(i, j int) { raKinds[i], raKinds[j] = raKinds[j], raKinds[i] })
+		raNext := 0
+		reanchor := func(where, k string) { // k == "": the three ways in turn, now and then none
+			if k == "" {
+				k = raKinds[raNext%3]
+				raNext++
+				if rng.Intn(7) == 0 {
+					k = "none"
+				}
+			}
+			switch k {
+			case "donepeer":
+				sp := s.peerID(s.bm.Digest().SyncPeer)
+				if sp == 0 {
+					t.Hit("restale." + where + ".none")
+					return
+				}
+				t.Hit("restale." + where + ".sync-peer-lost")
+				t.Hit("ev.donepeer")
+				s.active[sp-1] = false
+				r := guard(func() { s.bm.DonePeer(s.peers[sp-1]) })
+				t.Op(fmt.Sprintf("donepeer %d", sp), s.dump(r, 0, "[]"))
+				syncNew()
+			case "reset":
+				t.Hit("restale." + where + ".reset-header-state")
+				t.Hit("ev.importreset")
+				res := "ok"
+				r := guard(func() {
+					if err := s.bm.ResetHeaderState(); err != nil {
+						res = "err"
+					}
+				})
+				if r != "ok" {
+					res = r
+				}
+				t.Op("importreset [] 0", s.dump(res, 0, "[]"))
+			case "failwrite":
+				// a valid child of the stored tip whose batch write fails
+				tp := tip()
+				var ok []*node
+				for _, c := range tp.children {
+					if c.valid {
+						ok = append(ok, c)
+					}
+				}
+				if len(ok) == 0 || s.back != tp {
+					t.Hit("restale." + where + ".none")
+					return
+				}
+				t.Hit("restale." + where + ".failed-batch-write")
+				t.Hit("ev.headers.failwrite")
+				c := ok[rng.Intn(len(ok))]
+				p := sender()
+				s.fs.failWrite = 1
+				r := guard(func() { s.bm.Headers(s.peers[p-1], []*wire.BlockHeader{c.hdr}) })
+				s.fs.failWrite = 0
+				t.Op(fmt.Sprintf("headersfw %d %s", p, ids([]*node{c})), s.dump(r, 0, "[]"))
+			default:
+				t.Hit("restale." + where + ".none")
+			}
+		}
+		// offer: the candidates of one level, each after a re-anchoring; the one that tells the
+		// contexts apart comes first, right after the re-anchoring `first`.  Returns the candidate
+		// that got stored.
+		offer := func(cs []stCand, asFork bool, shape, first string) *node {
+			ord := rng.Perm(len(cs))
+			sort.SliceStable(ord, func(i, j int) bool { return cs[ord[i]].tells && !cs[ord[j]].tells })
+			for k, i := range ord {
+				c := cs[i]
+				if s.stuck || !s.onStored(c.n.parent) || !asFork && c.n.parent != tip() {
+					continue
+				}
+				if k == 0 {
+					reanchor("before-candidate", first)
+				} else {
+					reanchor("before-candidate", "")
+				}
+				b := []*node{c.n}
+				if asFork || rng.Intn(4) == 0 {
+					b = append(b, c.tail)
+				}
+				headers(sender(), b, shape+"."+c.n.kind)
+				if s.onStored(c.n) && c.n.valid {
+					return c.n
+				}
+			}
+			return nil
+		}
+		sc := stale
+		syncNew()
+		k := 1 + rng.Intn(sc.T)
+		headers(1, w.main[1:1+k], "main")
+		headers(1, w.main[1+k:sc.T+1], "main")
+		if rng.Intn(3) == 0 {
+			cfwrite()
+			cfwrite()
+		}
+		// the list is cut down to the tip, then something is validated through the store
+		reanchor("before-validation", raKinds[rng.Intn(3)])
+		switch rng.Intn(6) {
+		case 0:
+			headers(sender(), []*node{sc.vBad}, "restale-main-child.mtp")
+			if sc.ext != nil {
+				headers(sender(), []*node{sc.ext}, "restale-main-child.ok")
+			}
+		case 1:
+			if sc.ext != nil {
+				headers(sender(), []*node{sc.ext}, "restale-main-child.ok")
+			}
+			headers(sender(), []*node{sc.vBad}, "restale-main-child.mtp")
+		case 2:
+			// a prefix of the competing branch that is not heavier yet (validated in the reorg arm, refused)
+			n := 1 + rng.Intn(max(1, min(len(sc.branch)-1, sc.T-sc.f)))
+			headers(sender(), sc.branch[:n], "restale-branch-prefix")
+			if sc.ext != nil && rng.Intn(2) == 0 {
+				headers(sender(), []*node{sc.ext}, "restale-main-child.ok")
+			}
+		default:
+			if sc.ext != nil {
+				headers(sender(), []*node{sc.ext}, "restale-main-child.ok")
+			}
+		}
+		if rng.Intn(4) == 0 {
+			reanchor("before-reorg", "")
+		}
+		// the reorganisation
+		b := sc.branch
+		if rng.Intn(4) == 0 {
+			b = append([]*node{w.main[sc.f]}, b...)
+		}
+		headers(sender(), b, "restale-reorg")
+		if tip() != sc.branch[len(sc.branch)-1] {
+			t.Hit("restale.reorg-not-adopted")
+			return
+		}
+		if rng.Intn(4) == 0 {
+			backlog()
+		}
+		// re-anchored again in this case's way (or not at all: then the candidates come as forks
+		// below the tip), then the headers whose context lies at the reorganised heights
+		way := []string{"donepeer", "donepeer", "reset", "failwrite", "fork"}[rng.Intn(5)]
+		t.Hit("restale.way." + way)
+		if way == "fork" {
+			if len(sc.forkC) > 0 {
+				offer(sc.forkC, true, "restale-fork", "none")
+			}
+			return
+		}
+		for lv, cs := range sc.levels {
+			t.Hit(fmt.Sprintf("restale.offer.level-%d", lv))
+			if got := offer(cs, false, "restale-child", way); got == nil || lv+1 < len(sc.levels) && got != sc.levels[lv+1][0].n.parent {
+				break
+			}
+		}
+		return
+	}
+	if script == "neartie" {
+		// the sync peer gives us the main chain; then, round by round, branches that are just not
+		// heavier than what they would displace (nothing may change) and one that just is (it must be
+		// adopted in full) - in one message, or in two with the first part alone not heavier
+		t.Hit("script.near-tie")
+		if rng.Intn(2) == 0 {
+			peerheight(1, len(w.main)-1)
+		}
+		newpeer(1)
+		k := len(w.main) - 1
+		if rng.Intn(2) == 0 {
+			k = 1 + rng.Intn(len(w.main)-1)
+		}
+		headers(1, w.main[1:1+k], "main")
+		headers(1, w.main[1+k:], "main")
+		newpeer(2)
+		if rng.Intn(2) == 0 {
+			cfwrite()
+			cfwrite()
+		}
+		sender := func() int {
+			if sp := s.peerID(s.bm.Digest().SyncPeer); sp != 0 && rng.Intn(3) > 0 {
+				return sp
+			}
+			return 1 + rng.Intn(npeers)
+		}
+		msg := func(c *ntCand, n int) []*node {
+			b := append([]*node{}, c.nodes[:n]...)
+			if rng.Intn(5) == 0 { // with a known prefix, as after a block locator that matched lower
+				for fp, i := c.fp, 1+rng.Intn(2); i > 0 && fp.height >= 1; i, fp = i-1, fp.parent {
+					b = append([]*node{fp}, b...)
+				}
+			}
+			return b
+		}
+		for _, rd := range nearTie {
+			for _, c := range rd.offer {
+				if s.stuck {
+					return
+				}
+				headers(sender(), msg(c, len(c.nodes)), "neartie-"+c.kind)
+				switch rng.Intn(6) {
+				case 0:
+					cfwrite()
+				case 1:
+					backlog()
+				}
+			}
+			if c := rd.adopt; c != nil && !s.stuck {
+				p := sender()
+				if rd.split > 0 {
+					t.Hit("neartie.reveal.two-messages")
+					headers(p, msg(c, rd.split), "neartie-above-first-part")
+				} else {
+					t.Hit("neartie.reveal.one-message")
+				}
+				headers(p, msg(c, len(c.nodes)), "neartie-above")
+			}
+		}
 		return
 	}
 	// a sync peer is usually there from the start
@@ -1810,10 +2607,18 @@ func Run(t *tr.W, thorough bool) {
 	if os.Getenv("VERIF_SEARCH") == "1" {
 		ncases = 3 * 120 // the search after a broken tie: three times the quick run
 	}
+	rngNT := tr.Rng(7102) // the near-tie cases draw from a stream of their own
+	rngST := tr.Rng(7103)
 	for i := 0; i < ncases; i++ {
 		runCase(t, rng, 18+rng.Intn(30), "")
 		if i == ncases/3 || i == 2*ncases/3 {
 			runCase(t, rng, 0, "long") // a few long-branch cases per run
+		}
+		if i%10 == 5 {
+			runCase(t, rngNT, 0, "neartie") // a dozen near-tie cases per quick run
+		}
+		if i%5 == 3 {
+			runCase(t, rngST, 0, "restale") // and two dozen histories that re-anchor around a reorganisation
 		}
 	}
 }
